@@ -1962,6 +1962,18 @@ impl<T: PackedInt> IntVec<T> {
         buffer[..available].copy_from_slice(&data[byte_offset..byte_offset + available]);
 
         let value = u64::from_le_bytes(buffer);
+
+        // A field that starts inside a byte can end in a ninth byte (bit_in_byte + bits > 64,
+        // widths 58..=64); write_bits stores those bits there, so read them back from there
+        if bit_in_byte + bits as usize > 64 {
+            let ninth = match data.get(byte_offset + 8) {
+                Some(b) => *b as u64,
+                None => return Err(ZiporaError::invalid_data("Bit read out of bounds")),
+            };
+            let combined = (value >> bit_in_byte) | (ninth << (64 - bit_in_byte));
+            let mask = if bits == 64 { u64::MAX } else { (1u64 << bits) - 1 };
+            return Ok(combined & mask);
+        }
         
         // Use BMI2 BEXTR for optimal bit extraction when available
         Ok(BitOps::extract_bits(value, bit_in_byte as u8, bits))
